@@ -1419,20 +1419,22 @@ func runCase(t *testing.T, rt *rapid.T, c *stats.Case) {
 		}
 	}
 	// phase 2: interleaved script
-	target := warm + rapid.IntRange(4, 38).Draw(rt, "moreBlocks")
-	nsteps := rapid.IntRange(8, 70).Draw(rt, "nsteps")
+	target := warm + 4 + gen.Uniform(rt, 35, "moreBlocks")
+	nsteps := 8 + gen.Uniform(rt, 70, "nsteps")
 	restarts := 0
 	for i := 0; i < nsteps; i++ {
-		a := rapid.SampledFrom([]string{"store", "store", "store", "store", "store", "store", "store", "l1", "l1", "l1", "idle", "restart", "query", "query", "reorg", "probe", "probe"}).Draw(rt, "action")
+		a := rapid.SampledFrom([]string{"store", "store", "store", "store", "store", "store", "store", "store", "l1", "l1", "l1", "l1", "idle", "restart", "query", "query", "reorg"}).Draw(rt, "action")
+		// fault probe: the event of this step is replayed on copies with interruptions if it prunes
+		probe := (a == "store" || a == "l1") && m.probes < stats.Pick(2, 3) && rapid.IntRange(0, 2).Draw(rt, "probe") == 0
 		switch a {
 		case "store":
 			if m.ch.Height() >= target {
 				m.query()
 				continue
 			}
-			m.store(false)
+			m.store(probe)
 		case "l1":
-			m.setL1(false)
+			m.setL1(probe)
 		case "idle":
 			m.idle()
 		case "restart":
@@ -1447,12 +1449,6 @@ func runCase(t *testing.T, rt *rapid.T, c *stats.Case) {
 		case "reorg":
 			if !m.reorg() {
 				m.store(false)
-			}
-		case "probe":
-			if rapid.Bool().Draw(rt, "probeL1") {
-				m.setL1(true)
-			} else if m.ch.Height() < target+2 {
-				m.store(true)
 			}
 		}
 	}
